@@ -345,3 +345,33 @@ M("c06_quoted_value_not_unquoted", ["C06"],
   ("lomond/extension.py", "        value = value.strip().strip('\"')", "        value = value.strip()"))
 M("c06_decompress_error_swallowed", ["C06"],
   ("lomond/message.py", "            raise errors.CriticalProtocolError(\n                'unable to decompress payload'\n            )", "            return b''"))
+
+# ---- C15 -----------------------------------------------------------------
+M("c15_poll_gt", ["C15"],
+  ("lomond/session.py", "_time - self._poll_start >= poll:", "_time - self._poll_start > poll:"),
+  equivalent=True)   # gaps stay within [p, 2p]
+M("c15_ping_ge", ["C15"],
+  ("lomond/session.py", "        if ping_rate and session_time > self._next_ping:", "        if ping_rate and session_time >= self._next_ping:"))
+M("c15_ping_floor", ["C15"],
+  ("lomond/session.py", "                math.ceil(session_time / ping_rate) * ping_rate", "                math.floor(session_time / ping_rate) * ping_rate"))
+M("c15_ping_timeout_ge", ["C15"],
+  ("lomond/session.py", "            if time_since_last_pong > ping_timeout:", "            if time_since_last_pong >= ping_timeout:"))
+M("c15_close_timeout_gt", ["C15"],
+  ("lomond/session.py", "            if session_time >= sent_close_time + close_timeout:", "            if session_time > sent_close_time + close_timeout:"),
+  equivalent=True)   # forced one loop cycle later at most: still inside [c, c+p]
+M("c15_last_pong_not_updated", ["C15"],
+  ("lomond/session.py", "        self._last_pong = self.session_time\n", "        pass\n"))
+M("c15_sent_close_time_not_recorded", ["C15"],
+  ("lomond/websocket.py", "                self.state.sent_close_time = self.session.session_time", "                pass"))
+M("c15_poll_start_never_updated", ["C15"],
+  ("lomond/session.py", "            self._poll_start = _time\n            return True", "            if self._poll_start is None: self._poll_start = _time\n            return True"))
+M("c15_wait_twice_poll", ["C15"],
+  ("lomond/session.py", "                readable, max_bytes = selector.wait(self.BUFFER_SIZE, poll)", "                readable, max_bytes = selector.wait(self.BUFFER_SIZE, poll * 2)"))
+M("c15_times_absolute_not_since_ready", ["C15"],
+  ("lomond/session.py", "        self._start_time = time.time()\n", "        self._start_time = 0.0\n"))
+M("c15_next_ping_plus_rate", ["C15"],
+  ("lomond/session.py", "                math.ceil(session_time / ping_rate) * ping_rate\n            )", "                math.ceil(session_time / ping_rate) * ping_rate + ping_rate\n            )"))
+M("c15_close_timeout_ignores_zero", ["C15"],
+  ("lomond/session.py", "        if close_timeout:\n            sent_close_time", "        if close_timeout is not None:\n            sent_close_time"))
+M("c15_ping_timeout_counts_any_message", ["C15"],
+  ("lomond/session.py", "        elif event.name == 'pong':\n            self._on_pong(event)", "        elif event.name in ('pong', 'text'):\n            self._on_pong(event)"))
